@@ -143,6 +143,7 @@ WaterDensityOK(e) ==      \* solvent: H2O and D2O at natural density 0.9982 (D2O
   /\ Close(Mul(e.rhoD2O, SumM(e.psH2O)), Mul(Sci(9982, -4), SumM(e.psD2O)), -12)
 D2OClause(e) ==
   IF "exc" \in DOMAIN e THEN "D2ORaised"
+  ELSE IF "vecshape_ok" \in DOMAIN e /\ ~e.vecshape_ok THEN "OneValuePerFraction"
   ELSE IF ~WaterDensityOK(e) THEN "SolventDensity"
   ELSE IF SubstClause(e, Zero, e.o10) # "ok" THEN SubstClause(e, Zero, e.o10)
   ELSE IF SubstClause(e, One, e.o11) # "ok" THEN SubstClause(e, One, e.o11)
